@@ -121,6 +121,7 @@ struct World {
     std::vector<scpi_command_t> alt_table;   // a second command set the application can point the context at (command-language switch)
     bool filling_alt = false;                // add_command & co. fill alt_table while set
     void use_alt_table(bool alt) { ctx->cmdlist = alt ? alt_table.data() : table.data(); }
+    void use_units(int which);   // 0: the table the context was initialised with, 1: the application's own table, 2: none
     std::vector<Handler> handlers;
     bool table_sealed = false;
 
